@@ -14,6 +14,7 @@ def argmin(
     a: PolyLike,
     axis: Optional[int] = None,
     out: Optional[numpy.ndarray] = None,
+    **kwargs: Any,
 ) -> Any:
     """
     Return the indices of the minimum values along an axis.
@@ -32,6 +33,8 @@ def argmin(
         out:
             If provided, the result will be inserted into this array. It should
             be of the appropriate shape and dtype.
+        kwargs:
+            Passed on to `numpy.argmin` (``keepdims``).
 
     Return:
         Array of indices into the array. It has the same shape as `a.shape`
@@ -58,4 +61,4 @@ def argmin(
     proxy = numpoly.sortable_proxy(
         a, graded=options["sort_graded"], reverse=options["sort_reverse"]
     )
-    return numpy.argmin(proxy, axis=axis, out=out)
+    return numpy.argmin(proxy, axis=axis, out=out, **kwargs)
